@@ -548,8 +548,11 @@ fn body_life(plan: &J) {
                                 );
                             }
                         }
-                        if matches!(req, Req::SysCancel | Req::Cancel) {
-                            c.dead = true; // cancel() never returns: this coroutine must not be resumed again
+                        if matches!(req, Req::SysCancel | Req::Cancel) && !matches!(after, CoroutineState::Cancelled) {
+                            // cancel() never returns: unless the coroutine is Cancelled (a terminal state
+                            // that refuses every further resume, which the next acts check) it must not
+                            // be resumed again
+                            c.dead = true;
                         }
                         if is_terminal(&after) && c.sh.borrow().steps_done < c.nsteps && matches!(after, CoroutineState::Complete(_)) {
                             fail("early-complete", format!("co{ci} {what}: reported Complete after {} of {} steps", c.sh.borrow().steps_done, c.nsteps));
@@ -646,6 +649,9 @@ fn gen_vals(g: &mut Rng, tier: Tier) -> J {
         "end" => end,
         "bomb" => if g.chance(1, 4) { g.below(256) } else { 0 },
         "extra_resumes" => g.below(3),
+        // length of the formatted panic message (characters), plain or with multi-byte characters
+        "msg_chars" => *g.pick(&[0u64, 0, 40, 200, 255, 256, 257, 1_000, 5_000]),
+        "msg_wide" => g.chance(1, 2),
         "sim" => gen_sim(g, SimOpts { concurrent: false, max_points: 200_000, ..SimOpts::default() }),
     }
 }
@@ -700,6 +706,13 @@ fn body_vals(plan: &J) {
     let ys = yields.clone();
     let end2 = end.clone();
     let unique = ret ^ 0x5555;
+    // the whole message must come back: a tail marker after a generated amount of padding
+    let pad: String = {
+        let wide = plan.gb("msg_wide");
+        (0..plan.gus("msg_chars")).map(|k| if wide && k % 3 == 0 { ['é', '語', '🦀'][k / 3 % 3] } else { char::from(b'a' + (k % 26) as u8) }).collect()
+    };
+    let long_msg = format!("formatted payload panic {unique} {pad} END{unique}");
+    let long_msg2 = long_msg.clone();
     let co = Coroutine::<u64, u64, u64>::new(
         Some("vals".into()),
         move |s: &Suspender<'_, u64, u64>, first: u64| {
@@ -710,7 +723,7 @@ fn body_vals(plan: &J) {
             }
             match end2.as_str() {
                 "panic_str" => panic!("static payload panic"),
-                "panic_string" => panic!("formatted payload panic {unique}"),
+                "panic_string" => panic!("{long_msg2}"),
                 _ => ret,
             }
         },
@@ -766,10 +779,11 @@ fn body_vals(plan: &J) {
                 }
                 _ => {
                     probe("co.panic");
-                    let want = format!("formatted payload panic {unique}");
+                    let want = long_msg.clone();
                     match r {
                         CoroutineState::Error(m) if m.contains(&want) => {}
-                        other => fail("panic-message", format!("body panicked with \"{want}\" (String payload) but the resume reported {other:?}")),
+                        CoroutineState::Error(m) => fail("panic-message", format!("body panicked with a formatted message of {} bytes (\"{}...\") but the resume reported only {} bytes: {:?}", want.len(), want.chars().take(40).collect::<String>(), m.len(), m.chars().take(60).collect::<String>())),
+                        other => fail("panic-message", format!("body panicked with a formatted message of {} bytes but the resume reported {other:?}", want.len())),
                     }
                 }
             }
